@@ -96,15 +96,13 @@ def call_native(vm, s, fn, args, kwargs):
     if isinstance(fn, (VObj, Sym)):
         raise Unsupported(f"call of {fn!r}")
     kwkeys = list(kwargs.keys())
-    combos = _product(vm, s, list(args) + [kwargs[k] for k in kwkeys])
-    if len(combos) > 1 and vm.use_solver:
-        combos = [(g, xs) for g, xs in combos if vm.feasible(AND(s.guard, g))]
-    n = len(args)
+    combos = _product(vm, s, [fn] + list(args) + [kwargs[k] for k in kwkeys])
+    n = len(args) + 1
     out = []
     vm.nnative = getattr(vm, "nnative", 0) + len(combos)
     for g, xs in combos:
         try:
-            r = fn(*xs[:n], **dict(zip(kwkeys, xs[n:])))
+            r = xs[0](*xs[1:n], **dict(zip(kwkeys, xs[n:])))
         except Exception as e:
             if len(combos) == 1:
                 raise _vmraise(e)
